@@ -400,7 +400,10 @@ def main(chk):
     def report(name, verdict, info, srcs, single):
         nonlocal nlines, nfun
         if verdict == 'infra':
-            raise RuntimeError('%s: %s' % (name, info))
+            if info.startswith('gcc rejects generated unit'):
+                raise RuntimeError('%s: %s' % (name, info))
+            from ..runner import SubjectFailure
+            raise SubjectFailure('il-untranslatable/' + name.split(':')[0], '%s: %s' % (name, info[:800]), files={'a.c': srcs['a'].encode(), 'b.c': srcs['b'].encode()}, cmd='$CPROC_QBE a.c')
         if verdict == 'cproc-rejects':
             if not single and name in args_of and len(args_of[name][2]) == 2 and len(args_of[name][2][0]) > 1:
                 retry.append(name)
